@@ -511,3 +511,5 @@ def run(model, rep):
                            lambda un, q: q.split(".")[-1] == "using",
                            witness="using(<option>=0) is silently ignored: the derived hasher keeps the inherited setting")
     rep.minimum("C09.i-zero-is-a-value", 8)
+    # boolean options pass through as_bool() before using() stores them: 0 is a value there too
+    shared.rule_as_bool(model, rep, "C09.i-zero-is-a-value")
